@@ -20,7 +20,9 @@ PktEq(lg, ex) ==
          [] ex.t = "pres"   -> lg.ev = ex.ev /\ lg.ch = ex.ch /\ lg.who = ex.who /\ lg.user = ex.user
          [] OTHER           -> TRUE
 
-SyncEq(ls, es)  == Len(ls) = Len(es) /\ \A i \in DOMAIN ls : PktEq(ls[i], es[i])
+(* after a surviving hostile request the requester's own replies are free (error or ordinary reply, any number) *)
+SyncEq(ls, es)  == \/ Len(ls) = Len(es) /\ \A i \in DOMAIN ls : PktEq(ls[i], es[i])
+                   \/ es = <<[t |-> "any"]>> /\ \A i \in DOMAIN ls : ls[i].t \in {"err", "resp", "puback", "suback", "replay", "unsuback"}
 AsyncEq(la, ea) == /\ Len(la) = Cardinality(ea)
                    /\ \A i \in DOMAIN la : \E e \in ea : PktEq(la[i], e)
                    /\ \A e \in ea : \E i \in DOMAIN la : PktEq(la[i], e)
@@ -45,9 +47,14 @@ TrPub     == IsEvent("pub")      /\ Publish(Ev.c, ReqOf(Ev), Ev.via, Ev.retain, 
 TrLink    == IsEvent("link")     /\ Link(Ev.c, Ev.name, Ev.name # "toolong", ReqOf(Ev), Ev.sub, 1) /\ OutOK(Ev)
 TrPres    == IsEvent("presence") /\ Presence(Ev.c, Ev.k, Ev.w, Ev.syn, Ev.status, Ev.chg, 1) /\ OutOK(Ev)
 TrEnd     == IsEvent("end")      /\ End(Ev.c) /\ OutOK(Ev)
+(* C09: the broker is still there (the event exists), the hostile connection is closed or answered, everybody else is
+   served exactly as the model says - in this step and in all later ones *)
+TrCluster == IsEvent("cluster")  /\ ~Ev.panic /\ ClusterHostile /\ OutOK(Ev)       \* a panic on the gossip goroutine is a process exit
+TrHostile == IsEvent("hostile")  /\ Hostile(Ev.c, Ev.cls, Ev.closed) /\ OutOK(Ev)
 
 TraceInit == SessionInit /\ l = 1 /\ MarkInit
-TraceNext == TrReset \/ TrConnect \/ TrSub \/ TrUnsub \/ TrPub \/ TrLink \/ TrPres \/ TrEnd
+(* a "broker-died" event (the process exited, hung or ran out of its memory ceiling) has no action: never explained *)
+TraceNext == TrReset \/ TrConnect \/ TrSub \/ TrUnsub \/ TrPub \/ TrLink \/ TrPres \/ TrEnd \/ TrHostile \/ TrCluster
 MarkC     == Mark(l)
 TraceInv  == TrieIsHeld /\ NothingLeftBehind
 =============================================================================
